@@ -145,12 +145,15 @@ pub struct Stats {
     pub pointwise_pixels: AtomicU64,
     pub refs_thread: AtomicU64,
     pub refs_process: AtomicU64,
+    pub stress_convs: AtomicU64,
     pub label_checks: AtomicU64,
     pub mutations: AtomicU64,
     pub reads: AtomicU64,
 }
 
 pub struct World {
+    /// knob: repeat every conversion at once (I3a)
+    pub repeat: bool,
     pub pool: Mutex<Vec<Option<Entry>>>,
     pub pending: Mutex<Vec<Pending>>,
     pub viol: Mutex<Vec<Violation>>,
@@ -164,8 +167,9 @@ fn lock<T>(m: &Mutex<T>) -> std::sync::MutexGuard<'_, T> {
 }
 
 impl World {
-    pub fn new(slots: usize) -> Self {
+    pub fn new(slots: usize, repeat: bool) -> Self {
         World {
+            repeat,
             pool: Mutex::new(vec![None; slots]),
             pending: Mutex::new(Vec::new()),
             viol: Mutex::new(Vec::new()),
@@ -682,7 +686,7 @@ impl Ctx<'_> {
         }
 
         // I3a: immediate repetition on the same thread, from a fresh copy of the same logical input
-        if !outcome.is_logger_panic() {
+        if self.w.repeat && !outcome.is_logger_panic() {
             self.w.stats.repeats.fetch_add(1, Ordering::Relaxed);
             let again = match (cs.by_ref, src_obj.as_ref()) {
                 (true, Some(src)) => run_conv(canon, Src::Ref(src), op.cfg, op.t, op.p).0,
